@@ -4,7 +4,7 @@
    is the transcribed gemmlowp/TFLite function (total on Z through the explicit casts).
    Table commands return, for x = lo .. hi, the same triple per entry, concatenated. *)
 From Coq Require Import ZArith List Bool.
-From VV Require Import lib.PyInt gen.GenFpMath model.FpMath.
+From VV Require Import lib.PyInt lib.PyFloat gen.GenFpMath model.FpMath.
 Import ListNotations.
 Open Scope Z_scope.
 
@@ -32,6 +32,8 @@ Definition codes (lo hi : Z) : list Z := zrange lo (Z.to_nat (hi - lo + 1)).
 (* CMD requant = 15 : zp_in zp_out mult shift qmin qmax v1 .. vn *)
 (* CMD shl16np = 16 : a offset   (model of shift_left16 on an np.int16 operand, code as it is now; reference as shl16) *)
 (* CMD prelu_table = 17 : zp_in zp_out alpha_zp alpha_code id_scale id_shift alpha_scale alpha_shift qmin qmax *)
+(* CMD mulmax_table = 18 : const_first zp_in zp_out alpha_zp alpha_code id_scale id_shift qs(x,x,x) qs(x,alpha,x) qmin qmax *)
+(* CMD mulmax_kind = 19 : code zp mantissa exponent  (scale = mantissa * 2^exponent) *)
 Definition run (cmd : Z) (a : list Z) : list Z :=
   match cmd, a with
   | 1, [x; y] => tri (GenFpMath.saturating_rounding_mul32 x y) (SRDHM32 x y)
@@ -63,6 +65,17 @@ Definition run (cmd : Z) (a : list Z) : list Z :=
       flat_map (fun x => tri (vela_prelu_entry zi zo azp acode ids idsh als alsh qmin qmax x)
                              (PReluRef zi zo azp acode ids (31 - idsh) als (31 - alsh) qmin qmax x))
                (codes qmin qmax)
+  | 18, [cfirst; zi; zo; azp; acode; ids; idsh; a11; s11; a12; s12; qmin; qmax] =>
+      (* scale tokens: 1 = feature map / Mul output / output, 2 = the constant *)
+      let qs := fun (a b c : Z) => if b =? 2 then (a12, s12) else (a11, s11) in
+      let fm := {| q_scale := 1; q_zp := zi; q_code := 0 |} in
+      let ct := {| q_scale := 2; q_zp := azp; q_code := acode |} in
+      let in1 := if cfirst =? 1 then ct else fm in
+      let in2 := if cfirst =? 1 then fm else ct in
+      flat_map (fun x => tri (vela_mulmax_entry qs fm in1 in2 fm (negb (cfirst =? 1)) zo ids idsh qmin qmax x)
+                             (PReluRef zi zo azp acode ids (31 - idsh) a12 (31 - s12) qmin qmax x))
+               (codes qmin qmax)
+  | 19, [code; zp; m; e] => [1; mulmax_kind code zp (Dy m e); 0]
   | 16, [x; o] => tri (np_shift_left16_int16 x o) (SaturatingLeftShift16 x o)
   | _, _ => [-1]
   end.
